@@ -752,4 +752,65 @@ theorem f64_subtracted_mean_cancels :
       = F64.bits [1.0, 1.25, 1.0, 1.5, 1.1875, 1.25, 1.0, 1.5, 1.0] := by
   decide +kernel
 
+/-! ## locality, and the pixel exactly on the boundary -/
+
+/-- Mean filter, 1-D: the output at a pixel at least `h` from both ends is a function of its window
+`x[i-h .. i+h]` alone — two signals (of any lengths) that agree there agree at `i` after filtering.  The
+rest of the signal, however large its values, does not enter: this is what allows the correspondence
+check to bound the rounding of a pixel by the magnitudes inside that pixel's own window. -/
+theorem interior_local_mean1 (h : Nat) (t : Option Rat) (x y : List Rat) (i : Nat)
+    (hi : h ≤ i) (hx : i + h < x.length) (hy : i + h < y.length)
+    (hw : slice (i - h) (2 * h + 1) x = slice (i - h) (2 * h + 1) y) :
+    (rollingMean1 (2 * h + 1) t x)[i]? = (rollingMean1 (2 * h + 1) t y)[i]? := by
+  have e := specMeanCell1_local h i x y hi hx hy hw
+  have ex : at1 x i = at1 y i := congrArg Cell.x e
+  rw [(out_cases_mean1 h t x i hi hx).2, (out_cases_mean1 h t y i hi hy).2, e, ex]
+
+/-- the same window `1, 3/2, [3·10^17], 5/4, 1` inside two different signals -/
+example : slice (4 - 2) (2 * 2 + 1) ([7, 7, 1, 3 / 2, 300000000000000000, 5 / 4, 1, 9, 9] : List Rat)
+    = slice (4 - 2) (2 * 2 + 1) ([0, -100000000000000000000, 1, 3 / 2, 300000000000000000, 5 / 4, 1, 0] : List Rat) := by
+  decide +kernel
+
+/-- Mean filter, 2-D, independent odd windows: the output at `(i, j)` is a function of the
+`(2h0+1)×(2h1+1)` window around it. -/
+theorem interior_local_mean2 (h0 h1 n1 m1 : Nat) (t : Option Rat) (x y : List (List Rat)) (i j : Nat)
+    (hrx : ∀ r ∈ x, r.length = n1) (hry : ∀ r ∈ y, r.length = m1)
+    (hi : h0 ≤ i) (hx : i + h0 < x.length) (hy : i + h0 < y.length)
+    (hj : h1 ≤ j) (hxm : j + h1 < n1) (hym : j + h1 < m1)
+    (hw : (slice (i - h0) (2 * h0 + 1) x).map (slice (j - h1) (2 * h1 + 1))
+        = (slice (i - h0) (2 * h0 + 1) y).map (slice (j - h1) (2 * h1 + 1))) :
+    ((rollingMean2 (2 * h0 + 1) (2 * h1 + 1) t x)[i]?).bind (fun r => r[j]?)
+      = ((rollingMean2 (2 * h0 + 1) (2 * h1 + 1) t y)[i]?).bind (fun r => r[j]?) := by
+  have e := specMeanCell2_local h0 h1 n1 m1 i j x y hrx hry hi hx hy hj hxm hym hw
+  have ex : at2 x i j = at2 y i j := congrArg Cell.x e
+  rw [(out_cases_mean2 h0 h1 n1 t x i j hrx hi hx hj hxm).2,
+    (out_cases_mean2 h0 h1 m1 t y i j hry hi hy hj hym).2, e, ex]
+
+example : (slice (1 - 1) (2 * 1 + 1) ([[1, 2, 3, 50], [4, 9, 6, 50], [7, 8, 9, 50]] : List (List Rat))).map (slice (1 - 1) (2 * 1 + 1))
+    = (slice (1 - 1) (2 * 1 + 1) ([[1, 2, 3], [4, 9, 6], [7, 8, 9], [0, 0, 0]] : List (List Rat))).map (slice (1 - 1) (2 * 1 + 1)) := by
+  decide +kernel
+
+/-- "By MORE than the threshold times the spread": a pixel whose deviation equals the threshold times
+the spread exactly is kept — mean filter in the squared form, median filter in the linear form; one that
+exceeds it is replaced.  (With `out_cases_*`: an interior pixel exactly on the boundary comes back
+unchanged.  The check demands this wherever `meanDecisionExact` certifies an exact float evaluation.) -/
+theorem boundary_is_kept (c : Cell) (t : Rat) :
+    (c.d * c.d = t * t * c.s → c.outSq (some t) = c.x) ∧ (c.d = t * c.s → c.outLin (some t) = c.x) ∧
+    (c.d * c.d > t * t * c.s → c.outSq (some t) = c.repl) ∧ (c.d > t * c.s → c.outLin (some t) = c.repl) := by
+  refine ⟨fun h => ?_, fun h => ?_, fun h => ?_, fun h => ?_⟩
+  · simp [Cell.outSq, Cell.outlierSq, h]
+  · simp [Cell.outLin, Cell.outlierLin, h]
+  · simp [Cell.outSq, Cell.outlierSq, h]
+  · simp [Cell.outLin, Cell.outlierLin, h]
+
+/-- the planted window of the tie class: neighbours `2, 18, 2, 18` (mean 10, variance 64), pixel `25`
+(window mean 13, deviation 12), threshold `3/2`: `12² = (3/2)²·64`, kept; pixel `30` is replaced; and a
+float evaluation of the first is exact (`meanDecisionExact`, binary64) -/
+example : (specMeanCell1 2 [2, 18, 25, 2, 18] 2).d = 12 ∧ (specMeanCell1 2 [2, 18, 25, 2, 18] 2).s = 64 ∧
+    (specMeanCell1 2 [2, 18, 25, 2, 18] 2).outSq (some (3 / 2)) = 25 ∧
+    (specMeanCell1 2 [2, 18, 30, 2, 18] 2).outSq (some (3 / 2)) = 10 ∧
+    meanDecisionExact 53 (-1074) (some (3 / 2)) 25 [2, 18, 25, 2, 18] [2, 18, 2, 18] = true ∧
+    meanDecisionExact 53 (-1074) (some (3 / 2)) (1 / 10) [1 / 10, 1 / 5, 1 / 10] [1 / 10, 1 / 10] = false := by
+  decide +kernel
+
 end Pew.Filters
